@@ -112,6 +112,22 @@ pub fn run(tier: Tier) {
             }
         }
     }
+    // a third alphabet: characters a terminal does not show as a column of their own (byte order mark, zero width
+    // space, combining accent): they are characters of the line like any other, at the start of the text too
+    let alphabet3 = ['a', '\n', ' ', '\u{feff}', '\u{200b}', '\u{301}'];
+    let texts4 = strings(&alphabet3, len);
+    for t in &texts4 {
+        for pos in 0..=t.len() {
+            if !t.is_char_boundary(pos) {
+                continue;
+            }
+            pairs += 1;
+            st.bump("invisible_character_pairs", 1);
+            for file in [None, Some("src/g.ebnf")] {
+                check_one(&mut st, t, pos, file, false);
+            }
+        }
+    }
     // every kind of error on the shorter texts of both alphabets (the location is a function of text and position only)
     for t in texts.iter().chain(texts2.iter()).filter(|t| t.chars().count() + 1 <= len) {
         for pos in 0..=t.len() {
@@ -205,5 +221,5 @@ pub fn run(tier: Tier) {
             }
         }
     }
-    st.finish(json!({"texts": texts.len() + texts2.len() + texts3.len(), "pairs": pairs, "alphabet": format!("{:?}", alphabet), "second_alphabet": format!("{:?}", alphabet2), "max_len": len}));
+    st.finish(json!({"texts": texts.len() + texts2.len() + texts3.len() + texts4.len(), "pairs": pairs, "alphabet": format!("{:?}", alphabet), "second_alphabet": format!("{:?}", alphabet2), "third_alphabet": format!("{:?}", alphabet3), "max_len": len}));
 }
